@@ -367,6 +367,8 @@ def check_cbrt(rep, F, rule='ROOT-SHAPE'):
         for c, a in eff:
             if not (TB._plain(c).endswith('from_digit_and_lazy_trailing_zeros') and len(a) == 3):
                 continue
+            from rules import numeral as _N
+            a = _N.lazy_ctor_args(F, c, a)
             clo = TB.deref(a[2])
             if not (_is(clo, 'closure') and clo[1] in F.fns):
                 verdicts.add('undecided')
